@@ -144,13 +144,13 @@ func runOpOn(r OpReq, ins []tensor.Tensor) Outcome {
 }
 
 // RunOpReused initialises ONE operator instance with the request's attributes,
-// applies it to the request's inputs (outcome `first`), then to every warm-up
+// applies it to the request's inputs (outcome `first`; skipped with warmFirst), then to every warm-up
 // input list (outcomes ignored, panics recovered) and then to the request's
 // inputs again (outcome `last`). An operator instance carries only its
 // attributes, so what it was applied to before must not matter; and what it
 // returned earlier belongs to the caller: stale reports an output of the first
 // call whose contents changed during the later calls.
-func RunOpReused(r OpReq, warm [][]*ref.T) (last Outcome, first Outcome, stale string) {
+func RunOpReused(r OpReq, warm [][]*ref.T, warmFirst bool) (last Outcome, first Outcome, stale string) {
 	phase := "lookup"
 	last = Capture(&phase, func() ([]tensor.Tensor, error) {
 		op, err := opset13.GetOperator(r.Op)
@@ -170,13 +170,15 @@ func RunOpReused(r OpReq, warm [][]*ref.T) (last Outcome, first Outcome, stale s
 			return nil, err
 		}
 		var firstFps []Fingerprint
-		first = Capture(nil, func() ([]tensor.Tensor, error) {
-			vin, err := op.ValidateInputs(ToTensors(r.Inputs))
-			if err != nil {
-				return nil, err
-			}
-			return op.Apply(vin)
-		})
+		if !warmFirst { // (with warmFirst the instance meets the other input lists before it meets the request)
+			first = Capture(nil, func() ([]tensor.Tensor, error) {
+				vin, err := op.ValidateInputs(ToTensors(r.Inputs))
+				if err != nil {
+					return nil, err
+				}
+				return op.Apply(vin)
+			})
+		}
 		for _, t := range first.Raw {
 			firstFps = append(firstFps, Fp(t))
 		}
@@ -629,6 +631,42 @@ func RunModelProto(mp *onnx.ModelProto, feed map[string]*ref.T, outputs []string
 		}
 		phase = "load"
 		m, err := gonnx.NewModelFromBytes(b)
+		if err != nil {
+			return nil, err
+		}
+		phase = "run"
+		in := gonnx.Tensors{}
+		for k, v := range feed {
+			in[k] = ToTensor(v)
+		}
+		res, err := m.Run(in)
+		if err != nil {
+			return nil, err
+		}
+		out := make([]tensor.Tensor, len(outputs))
+		for i, name := range outputs {
+			t, ok := res[name]
+			if !ok {
+				malformed = fmt.Sprintf("declared output %q missing from the result map", name)
+			}
+			out[i] = t
+		}
+		return out, nil
+	})
+	if malformed != "" && o.Kind == Value {
+		o.ReadErr = malformed
+	}
+	return o
+}
+
+// RunModelProtoDirect is RunModelProto through gonnx.NewModel on the proto object itself
+// (no serialisation in between).
+func RunModelProtoDirect(mp *onnx.ModelProto, feed map[string]*ref.T, outputs []string) Outcome {
+	phase := "marshal"
+	malformed := ""
+	o := Capture(&phase, func() ([]tensor.Tensor, error) {
+		phase = "load"
+		m, err := gonnx.NewModel(mp)
 		if err != nil {
 			return nil, err
 		}
